@@ -6,7 +6,7 @@
    (apart from delete/reset/config on the object sets); number agreement and crash freedom of the C++ are
    checked by the oracle of props/C20/check.py, not proved. *)
 From Coq Require Import ZArith List Bool String Permutation.
-From CV Require Import C20.ScriptModel C20.ScriptProofs C20.ScriptTable C20.GradModel C20.GradProofs C20.SemModel C20.SemProofs Gen.GenScript.
+From CV Require Import C20.ScriptModel C20.ScriptProofs C20.ScriptTable C20.GradModel C20.GradProofs C20.SemModel C20.SemProofs C20.EnergyModel C20.EnergyProofs Gen.GenScript.
 Import ListNotations.
 Local Open Scope string_scope.
 Local Open Scope Z_scope.
@@ -271,6 +271,28 @@ Theorem C20_data_follow_objects_over_any_history : forall (T : Type) tbl parse_c
 Proof. exact (@run_sevents_wf). Qed.
 Print Assumptions C20_data_follow_objects_over_any_history.
 
+(* ---- energy given to the engine vs `cv getenergy` / `cv addenergy` (order of colvarmodule::calc_biases / update_colvar_forces) ---- *)
+(* for scriptedColvarForces off/on and scriptingAfterBiases off/on, any list of `cv addenergy` values issued by the force script, any
+   bias energies and any previous state: the engine is handed exactly the total that the module holds after the step (what
+   `cv getenergy` returns), and that total contains every addition of the script and every bias, in the order of the code *)
+Theorem C20_engine_receives_the_total_energy : forall (T : Type) (add : T -> T -> T) (zero : T) scripted after script biases st,
+  let st' := energy_step add zero scripted after script biases st in
+  es_sent st' = Some (es_total st') /\
+  es_total st' = (if scripted
+                  then (if after then fold_left add script (fold_left add biases zero) else fold_left add biases (fold_left add script zero))
+                  else fold_left add biases zero).
+Proof. exact (@engine_receives_the_total). Qed.
+Print Assumptions C20_engine_receives_the_total_energy.
+
+(* with an exact addition the setting scriptingAfterBiases does not change the energy: biases + script *)
+Theorem C20_scripting_order_irrelevant_for_the_energy : forall (T : Type) (add : T -> T -> T) (zero : T),
+  (forall a b, add a b = add b a) -> (forall a b c, add a (add b c) = add (add a b) c) ->
+  forall script biases st, (forall a, add zero a = a) ->
+  es_total (energy_step add zero true true script biases st) = es_total (energy_step add zero true false script biases st) /\
+  es_total (energy_step add zero true true script biases st) = add (fold_left add biases zero) (fold_left add script zero).
+Proof. exact (@scripting_order_irrelevant). Qed.
+Print Assumptions C20_scripting_order_irrelevant_for_the_energy.
+
 (* ---- the premises of the implications above are satisfiable ---- *)
 Example C20_example_dispatch :
   dispatch script_table ["x"] [] ["cv"; "version"] = Run OModule ("cv_version", 0, 0) true /\
@@ -370,3 +392,9 @@ Example C20_example_default_names :
   = mk_state ["x"] [("harmonic2", ["x"]); ("harmonic3", ["x"])] 3 /\
   default_cv_name (mk_state ["a"; "b"] [] 0) = "colvar3".
 Proof. vm_compute. split; reflexivity. Qed.
+
+Example C20_example_energy :
+  energy_step Z.add 0%Z true true [5; 1]%Z [10; 20]%Z (mk_estate 99%Z (Some 7%Z)) = mk_estate 36%Z (Some 36%Z) /\
+  energy_step Z.add 0%Z true false [5; 1]%Z [10; 20]%Z (mk_estate 99%Z None) = mk_estate 36%Z (Some 36%Z) /\
+  energy_step Z.add 0%Z false true [5; 1]%Z [10; 20]%Z (mk_estate 99%Z None) = mk_estate 30%Z (Some 30%Z).
+Proof. vm_compute. repeat split. Qed.
